@@ -27,6 +27,7 @@ type loopInfo struct {
 }
 
 type frame struct {
+	curPos   string // source position of the instruction being executed
 	u        *Unit
 	fn       *ssa.Function
 	key      string
@@ -273,6 +274,7 @@ func (f *frame) execBlock(b *ssa.BasicBlock, st0 *State, reach0 Term) {
 			continue
 		}
 		u.curReach = f.curReach
+		f.curPos = f.pos(ins)
 		f.execInstr(ins)
 		if f.curReach.S == "false" {
 			break
@@ -605,7 +607,7 @@ func (f *frame) checkNil(p Val, what string) {
 	if f.u.nonNil[t.S] {
 		return // fresh allocation
 	}
-	f.u.oblige(f.key, "safe.nil", "", f.curReach, Term{"(not (= " + t.S + " 0))", sBool}, f.key+" nil dereference ("+what+")", "")
+	f.u.oblige(f.key, "safe.nil", "", f.curReach, Term{"(not (= " + t.S + " 0))", sBool}, f.curPos+" "+f.key+" nil dereference ("+what+")", "")
 }
 
 func (f *frame) boundsCheck(idx, ln Term, ins ssa.Instruction) {
@@ -621,6 +623,8 @@ func (u *Unit) toInt(t Term) Term {
 	switch t.T.K {
 	case KInt:
 		return t
+	case KErr:
+		return Term{t.S, sInt} // the identity number of an error value
 	case KBV:
 		if in, ok := u.zextOf[t.S]; ok {
 			return u.toInt(in)
@@ -658,6 +662,13 @@ func (u *Unit) toBV(t Term, s *Sort) Term {
 			return bvConst(n, s)
 		}
 		u.bridgeFact(fmt.Sprintf("(=> (and (<= 0 %[1]s) (< %[1]s %[2]s)) (= (bv2nat ((_ int2bv %[3]d) %[1]s)) %[1]s))", t.S, new(big.Int).Lsh(big.NewInt(1), uint(s.W)).String(), s.W))
+		// an integer that equals the value of a fixed-width operand converts back to that operand (the solvers
+		// do not apply congruence to int2bv)
+		for _, pr := range u.intOf {
+			if pr[1].T.W == s.W && pr[0].S != t.S {
+				u.bridgeFact(fmt.Sprintf("(=> (= %s %s) (= ((_ int2bv %d) %s) %s))", t.S, pr[0].S, s.W, t.S, pr[1].S))
+			}
+		}
 		// int2bv is a ring homomorphism: spell it out for a top-level sum or difference
 		if sx, err := parseSexprs(t.S); err == nil && len(sx) == 1 && len(sx[0].list) == 3 && (sx[0].list[0].atom == "+" || sx[0].list[0].atom == "-") {
 			op := "bvadd"
@@ -985,7 +996,15 @@ func (f *frame) convert(ins *ssa.Convert) Val {
 	case ts.K == KInt && x.T.K == KBV:
 		t := u.toInt(x)
 		t.T = ts
-		return u.define(f.key+"_"+ins.Name(), t)
+		r := u.define(f.key+"_"+ins.Name(), t)
+		if !x.T.Signed {
+			u.intOf = append(u.intOf, [2]Term{r, x})
+		}
+		if !x.T.Signed && os.Getenv("GOVC_INV") != "" {
+			// converting back gives the original value (only stated for conversions the program performs)
+			u.bridgeFact(fmt.Sprintf("(= ((_ int2bv %d) %s) %s)", x.T.W, r.S, x.S))
+		}
+		return r
 	case ts.K == KInt && x.T.K == KInt:
 		return Term{x.S, ts}
 	case ts.K == KReal && x.T.K == KInt:
